@@ -629,7 +629,11 @@ class BaseRepository(ABC):
     def validate_release_files(self, repository_root: Path, encode_tilde: bool):
         release_files_exists = False
 
-        for _, metadata_release_files in self.release_files_per_metadata.items():
+        for (
+            metadata,
+            metadata_release_files,
+        ) in self.release_files_per_metadata.items():
+            metadata_release_files_exists = False
             metadata_sizes: dict[str, list[tuple[int, Path]]] = {}
             metadata_hashes: dict[str, dict[HashType, list[tuple[str, Path]]]] = {}
 
@@ -650,6 +654,7 @@ class BaseRepository(ABC):
                     release = Release(fp)
 
                 release_files_exists = True
+                metadata_release_files_exists = True
                 for hash_type in HashType:
                     for file in release.get(hash_type.value, []):
                         try:
@@ -691,6 +696,13 @@ class BaseRepository(ABC):
                         metadata_hashes.setdefault(path, {}).setdefault(
                             hash_type, []
                         ).append((hash_sum, release_file_relative_path))
+
+            # Every codename needs at least one release file: without it nothing
+            # would be mirrored for the codename while its old data gets replaced
+            if not metadata_release_files_exists:
+                raise InvalidReleaseFilesException(
+                    f"No release files were found for {metadata}"
+                )
 
         if not release_files_exists:
             raise InvalidReleaseFilesException("No release files were found")
